@@ -30,6 +30,7 @@ import (
 	"strconv"
 	"strings"
 	"sync"
+	"syscall"
 	"time"
 
 	zz "github.com/rpcpool/yellowstone-faithful/zzverif"
@@ -116,6 +117,7 @@ func Serve(exec func(op string) string) {
 		panic("worker: fd 3 missing")
 	}
 	w := bufio.NewWriter(out)
+	go rssWatchdog()
 	var m0, m1 runtime.MemStats
 	for {
 		line, err := in.ReadString('\n')
@@ -126,10 +128,49 @@ func Serve(exec func(op string) string) {
 		runtime.ReadMemStats(&m0)
 		ans := guarded(exec, line)
 		runtime.ReadMemStats(&m1)
-		fmt.Fprintf(w, "%d\t%s\n", m1.TotalAlloc-m0.TotalAlloc, ans)
+		// after a very large request the worker retires: a fresh process gets zero pages from the OS for free,
+		// while re-using freed spans means clearing gigabytes for the next large request
+		bye := ""
+		if m1.TotalAlloc-m0.TotalAlloc > 512<<20 {
+			bye = "!"
+		}
+		fmt.Fprintf(w, "%d%s\t%s\n", m1.TotalAlloc-m0.TotalAlloc, bye, ans)
 		w.Flush()
-		if m1.HeapAlloc > 1<<30 {
-			runtime.GC()
+		if bye != "" {
+			os.Exit(0)
+		}
+	}
+}
+
+// rssWatchdog ends the worker when its resident memory passes 8 GiB (a runaway loop that keeps appending must not
+// take the machine down); the parent classifies that death as alloc.  Allocation free: pread into a fixed buffer.
+func rssWatchdog() {
+	fd, err := syscall.Open("/proc/self/statm", syscall.O_RDONLY, 0)
+	if err != nil {
+		return
+	}
+	var buf [128]byte
+	page := uint64(os.Getpagesize())
+	for {
+		time.Sleep(50 * time.Millisecond)
+		n, err := syscall.Pread(fd, buf[:], 0)
+		if err != nil || n <= 0 {
+			continue
+		}
+		// second field = resident pages
+		i := 0
+		for i < n && buf[i] != ' ' {
+			i++
+		}
+		i++
+		var v uint64
+		for i < n && buf[i] >= '0' && buf[i] <= '9' {
+			v = v*10 + uint64(buf[i]-'0')
+			i++
+		}
+		if v*page > 8<<30 {
+			os.Stderr.WriteString("fatal error: worker resident memory exceeded 8 GiB\n")
+			os.Exit(97)
 		}
 	}
 }
@@ -165,7 +206,7 @@ type Worker struct {
 }
 
 func NewWorker(testName string) *Worker {
-	return &Worker{test: testName, Budget: 3 * time.Second}
+	return &Worker{test: testName, Budget: 2 * time.Second}
 }
 
 func (w *Worker) start() {
@@ -240,6 +281,10 @@ func (w *Worker) once(op string, d time.Duration) (raw string, state string) {
 			w.stop()
 			return st, "died"
 		}
+		if i := strings.IndexByte(l, '\t'); i > 0 && l[i-1] == '!' {
+			l = l[:i-1] + l[i:]
+			w.stop()
+		}
 		return l, "answered"
 	case <-time.After(d):
 		w.stop()
@@ -249,7 +294,7 @@ func (w *Worker) once(op string, d time.Duration) (raw string, state string) {
 
 func fatalLine(stderr string) string {
 	for _, l := range strings.Split(stderr, "\n") {
-		if strings.HasPrefix(l, "fatal error:") || strings.HasPrefix(l, "runtime: out of memory") || strings.Contains(l, "cannot allocate memory") {
+		if strings.HasPrefix(l, "fatal error:") || strings.HasPrefix(l, "runtime: out of memory") || strings.Contains(l, "cannot allocate memory") || strings.Contains(l, "resident memory exceeded") {
 			return strings.TrimSpace(l)
 		}
 	}
@@ -260,68 +305,68 @@ func fatalLine(stderr string) string {
 	return strings.ReplaceAll(t, "\n", " | ")
 }
 
+func parseAnswer(raw string, inputLen int) Result {
+	parts := strings.SplitN(raw, "\t", 4)
+	alloc, _ := strconv.ParseUint(parts[0], 10, 64)
+	ans := ""
+	if len(parts) > 1 {
+		ans = parts[1]
+	}
+	r := Result{Answer: ans, Alloc: alloc}
+	r.Class = strings.Fields(ans + " x")[0]
+	if r.Class == "panic" {
+		if len(parts) > 2 {
+			r.Site = parts[2]
+		}
+		if len(parts) > 3 {
+			r.Msg = parts[3]
+		}
+		return r
+	}
+	for _, wd := range strings.Fields(ans) {
+		if strings.HasPrefix(wd, "outlen=") {
+			// a decompressor's output counts as part of what the call legitimately handles
+			n, _ := strconv.Atoi(wd[len("outlen="):])
+			inputLen += n
+		}
+	}
+	if alloc > AllocLimit(inputLen) {
+		r.Class = "alloc"
+		r.Msg = fmt.Sprintf("%d bytes requested for an input of %d bytes (limit %d)", alloc, inputLen, AllocLimit(inputLen))
+	}
+	return r
+}
+
 // Do executes one op in the worker and classifies the outcome.  inputLen is the number of input bytes the op carries.
+// Budgets: the first try gets Budget; a try that times out is repeated alone (fresh worker) up to three times with
+// ten times the budget; only if all of them time out the op is a hang.
 func (w *Worker) Do(op string, inputLen int) Result {
-	budget := w.Budget
-	for attempt := 0; attempt < 3; attempt++ {
+	budgets := []time.Duration{w.Budget, 10 * w.Budget, 10 * w.Budget, 10 * w.Budget}
+	for _, budget := range budgets {
 		raw, st := w.once(op, budget)
 		switch st {
 		case "answered":
-			parts := strings.SplitN(raw, "\t", 4)
-			alloc, _ := strconv.ParseUint(parts[0], 10, 64)
-			ans := ""
-			if len(parts) > 1 {
-				ans = parts[1]
-			}
-			r := Result{Answer: ans, Alloc: alloc}
-			r.Class = strings.Fields(ans + " x")[0]
-			if r.Class == "panic" {
-				if len(parts) > 2 {
-					r.Site = parts[2]
-				}
-				if len(parts) > 3 {
-					r.Msg = parts[3]
-				}
-				return r
-			}
-			if alloc > AllocLimit(inputLen) {
-				r.Class = "alloc"
-				r.Msg = fmt.Sprintf("%d bytes requested for an input of %d bytes (limit %d)", alloc, inputLen, AllocLimit(inputLen))
-			}
-			return r
+			return parseAnswer(raw, inputLen)
 		case "died":
 			fl := fatalLine(raw)
 			// re-run alone in a fresh worker to confirm
-			raw2, st2 := w.once(op, 10*budget)
+			raw2, st2 := w.once(op, 10*w.Budget)
 			if st2 == "answered" {
 				// not reproducible: take the second answer (the first death is recorded in Msg)
-				parts := strings.SplitN(raw2, "\t", 4)
-				alloc, _ := strconv.ParseUint(parts[0], 10, 64)
-				r := Result{Answer: parts[len(parts)-1], Alloc: alloc, Msg: "worker died once: " + fl}
-				if len(parts) > 1 {
-					r.Answer = parts[1]
-				}
-				r.Class = strings.Fields(r.Answer + " x")[0]
-				if r.Class == "panic" && len(parts) > 2 {
-					r.Site = parts[2]
-				}
+				r := parseAnswer(raw2, inputLen)
+				r.Msg = "worker died once (" + fl + ") " + r.Msg
 				return r
 			}
 			if st2 == "died" {
 				fl = fatalLine(raw2)
 			}
-			if strings.Contains(fl, "out of memory") || strings.Contains(fl, "cannot allocate memory") {
+			if strings.Contains(fl, "out of memory") || strings.Contains(fl, "cannot allocate memory") || strings.Contains(fl, "resident memory exceeded") {
 				return Result{Class: "alloc", Answer: "alloc", Site: "fatal-out-of-memory", Msg: fl}
 			}
 			return Result{Class: "crash", Answer: "crash", Site: "fatal", Msg: fl}
-		case "timeout":
-			budget *= 10
-			if attempt == 0 {
-				budget = w.Budget * 10
-			}
 		}
 	}
-	return Result{Class: "hang", Answer: "hang", Msg: fmt.Sprintf("no answer within %s, three times, alone", budget)}
+	return Result{Class: "hang", Answer: "hang", Msg: fmt.Sprintf("no answer within %s, three times, alone", 10*w.Budget)}
 }
 
 // ---------------------------------------------------------------------------------------------------
@@ -333,6 +378,9 @@ type Run struct {
 	Prop  string
 	seen  map[string]bool
 	Print func(op string, r Result) string // canonical answer line compared with the model (default: r.Class)
+	// Exempt: ops whose allocation is decided by a third-party stage that has its own op kind (e.g. the zstd payload
+	// inside an accepted linked-log record is checked by `unz`); an `alloc` of such an op is only counted.
+	Exempt func(op string, r Result) bool
 }
 
 func NewRun(testName string) *Run {
@@ -368,17 +416,21 @@ func isHex(s string) bool {
 func (r *Run) Exec(op string) Result {
 	res := r.W.Do(op, InputLen(op))
 	kind := strings.Fields(op)[0]
+	if res.Class == "alloc" && r.Exempt != nil && res.Site == "" && r.Exempt(op, res) {
+		res.Class = strings.Fields(res.Answer + " x")[0]
+		r.S.Count("alloc-exempt:" + kind)
+	}
 	line := res.Class
 	if r.Print != nil {
 		line = r.Print(op, res)
 	}
-	r.S.Op(op, line, res.Class == "ok")
+	r.S.Op(op, line, res.Class == "ok" || res.Class == "z")
 	r.S.Count("class:" + res.Class)
 	r.S.Count("op:" + kind)
 	switch res.Class {
 	case "panic", "hang", "alloc", "crash":
 		key := fmt.Sprintf("%s:%s:%s", r.Prop, kind, res.Class)
-		if res.Site != "" {
+		if res.Site != "" && res.Class != "alloc" {
 			key += ":" + res.Site
 		}
 		key = strings.ReplaceAll(key, " ", "_")
@@ -484,7 +536,7 @@ func FieldValues(f Field, cur uint64, fileSize int) []uint64 {
 	vals := []uint64{0, 1, 2, mx, mx - 1, cur + 1, cur - 1, cur * 2, uint64(fileSize), uint64(fileSize) + 1, uint64(fileSize) - 1,
 		uint64(fileSize) * 2, 12, 13, 24, 25, 127, 128, 255, 256, 65535, 65536, 1 << 24, 1<<24 + 1}
 	if f.Width == 4 || f.Width == 0 || f.Width >= 8 {
-		vals = append(vals, 0xFFFFFFF0, 0xFFFFFFF3, 0xFFFFFFF4, 0xFFFFFFFF, 0x80000000, 0x7FFFFFFF, 256<<20, 256<<20+1, 200<<20, 32<<20, 32<<20+1, 1<<27)
+		vals = append(vals, 0xFFFFFFF0, 0xFFFFFFF4, 0xFFFFFFFF, 0x80000000, 256<<20, 256<<20+1, 200<<20, 32<<20, 32<<20+1, 1<<27)
 	}
 	if f.Width == 0 || f.Width >= 8 {
 		vals = append(vals, 1<<62, 1<<63, 1<<63-1, 1<<61, 1<<60, mx-7, mx-8, mx-15)
